@@ -189,10 +189,9 @@ CheckMod(e) ==
              m == e.m IN
          \* soundness for every modulus; completeness modulo an odd prime; composite: perfect squares only (not claimed complete)
          /\ e.ok => IsSqrtMod(X, e.r, m)
-         /\ (IsPrime(m) /\ m > 2) => (e.ok <=> IsQR(X, m))
+         /\ IsPrime(m) => (e.ok <=> IsQR(X, m))                          \* modulo 2 every residue is its own root
          /\ IsPerfectSquare(X % m) /\ ~IsPrime(m) => e.ok
          /\ ~e.ok => e.r = (IF e.al = 1 THEN X ELSE 123)
-    [] e.a = "m.sqrt.panic" -> e.m = 2                                  \* saferith refuses even moduli; 2 is outside "odd prime"
     [] e.a = "m.modi" ->
          LET X == IX(e) IN
          /\ e.red = X % e.m
@@ -321,9 +320,8 @@ CheckNum(e) ==
          /\ Opt(e.reducedok, e.reduced, e.x >= 0 /\ e.reducedarg < m, e.reducedarg)
     [] e.a = "U.sqrt" ->
          /\ e.rok => IsSqrtMod(e.x, e.r, e.m)
-         /\ (IsPrime(e.m) /\ e.m > 2) => (e.rok <=> IsQR(e.x, e.m))
+         /\ IsPrime(e.m) => (e.rok <=> IsQR(e.x, e.m))
          /\ e.qr <=> e.rok
-    [] e.a = "U.sqrt.panic" -> e.m = 2
     [] e.a = "U.bin" ->
          LET m == e.m IN
          /\ e.add = (e.x + e.y) % m /\ e.sub = (e.x - e.y) % m /\ e.mul = MulMod(e.x, e.y, m)
